@@ -1,7 +1,9 @@
 """C08 — placement is deterministic and independent of thread scheduling."""
 import json
 import os
+import re
 import sys
+import time
 
 sys.path.insert(0, os.path.dirname(os.path.dirname(os.path.abspath(__file__))))
 import common as C  # noqa: E402
@@ -44,6 +46,34 @@ TECHNIQUE = "Lean 4 proof (exhaustive protocol exploration + homomorphism to arb
 TSAN_ENV = {"TSAN_OPTIONS": "halt_on_error=0:exitcode=66:second_deadlock_stack=1"}
 
 
+def _read_oracle(out):
+    p = os.path.join(out, "oracle.txt")
+    fails = []
+    if os.path.exists(p):
+        for ln in open(p, errors="replace").read().splitlines():
+            if ln.strip():
+                try:
+                    fails.append(json.loads(ln))
+                except Exception:
+                    fails.append({"case": "?", "what": ln})
+    return fails
+
+
+def _read_stats(out):
+    try:
+        return json.load(open(os.path.join(out, "stats.json")))
+    except Exception:
+        return {}
+
+
+def _scratch(tag):
+    import shutil
+    out = os.path.join(C.CACHE, "run", "C08-%s-%d" % (tag, os.getpid()))
+    shutil.rmtree(out, ignore_errors=True)
+    os.makedirs(out)
+    return out
+
+
 def tsan_step(seed):
     """Thorough tier: the same harness built with -fsanitize=thread against a TSan build of the library.
     Returns (ok, summary dict)."""
@@ -51,59 +81,231 @@ def tsan_step(seed):
         exe = C.build_harness("h_C08", "tsan", extra_flags=HARNESS_FLAGS)
     except RuntimeError as e:
         return False, {"tsan": "build failed", "detail": str(e)[-1500:]}
-    out = os.path.join(C.CACHE, "run", "C08-tsan-%d" % os.getpid())
     import shutil
-    shutil.rmtree(out, ignore_errors=True)
-    os.makedirs(out)
+    out = _scratch("tsan")
     rc, log = C.sh([exe, "--seed", str(seed), "--tier", "search", "--out", out], env=TSAN_ENV, timeout=3 * 3600)
     # children write their stderr to a per-case file; the pool turns a ThreadSanitizer report into an oracle
     # failure of that case and counts it
     reports = log.count("WARNING: ThreadSanitizer")
-    stats = {}
-    try:
-        stats = json.load(open(os.path.join(out, "stats.json")))
-    except Exception:
-        pass
-    fails = [ln for ln in open(os.path.join(out, "oracle.txt")).read().splitlines() if ln.strip()] \
-        if os.path.exists(os.path.join(out, "oracle.txt")) else []
+    stats = _read_stats(out)
+    fails = _read_oracle(out)
     dist = stats.get("distribution", {})
     reports += int(dist.get("tsan_reports", 0))
-    bad_children = {k: v for k, v in dist.items() if k.startswith("d:skipped_child_") and not k.endswith("_abort")}
+    bad_children = {k: v for k, v in dist.items() if k.startswith(("d:skipped_child_", "o:skipped_child_")) and not k.endswith("_abort")}
     ok = rc == 0 and reports == 0 and not fails and not bad_children
     summary = {"tsan_exit": rc, "tsan_reports": reports, "tsan_evaluations": stats.get("evaluations", 0),
                "tsan_oracle_failures": len(fails), "tsan_children_stopped": bad_children,
-               "tsan_first_report": (fails[0][:1500] if fails else log[log.find("WARNING: ThreadSanitizer"):][:1500]) if reports else ""}
+               "tsan_first_report": (json.dumps(fails[0])[:1500] if fails else log[log.find("WARNING: ThreadSanitizer"):][:1500]) if (reports or fails) else ""}
     shutil.rmtree(out, ignore_errors=True)
     return ok, summary
 
 
-def custom_main(a, seed):
-    """Standard check, plus (thorough tier) the ThreadSanitizer run."""
-    import importlib
-    me = sys.modules[__name__]
-    fn = me.__dict__.pop("custom_main")        # let check.main run the standard pipeline
+def perturb_step(seed, tier, replay=None):
+    """Both tiers: the harness built WITHOUT a sanitizer (variant `fast`: glibc malloc), where the harness also
+    switches M_PERTURB before every run, so that a result depending on uninitialised heap memory changes between
+    runs (ASan's allocator hands out 0xbe-filled / zero pages, which hides such reads in the main run).
+    Oracle only.  Returns (ok, summary, first failure or None)."""
     try:
-        check = importlib.import_module("check")
-        argv = sys.argv
-        rc = check.main()
-    finally:
-        me.custom_main = fn
-    if a.tier != "thorough" or a.replay:
-        return rc
-    ok, summary = tsan_step(seed)
+        exe = C.build_harness("h_C08", "fast", extra_flags=HARNESS_FLAGS)
+    except RuntimeError as e:
+        return False, {"perturb": "build failed", "detail": str(e)[-1500:]}, None
+    import shutil
+    out = _scratch("perturb")
+    args = [exe, "--seed", str(seed + 2000), "--tier", "perturbmore" if tier == "thorough" else "perturb", "--out", out]
+    if replay:
+        args += ["--replay", replay]
+    t0 = time.time()
+    rc, log = C.sh(args, timeout=3 * 3600)
+    stats = _read_stats(out)
+    fails = _read_oracle(out)
+    dist = stats.get("distribution", {})
+    summary = {"exit": rc, "variant": "fast (-O2, no sanitizer, glibc malloc + M_PERTURB per run)", "evaluations": stats.get("evaluations", 0),
+               "distinct_nontrivial": stats.get("distinct_nontrivial", 0), "oracle_failures": len(fails), "wall_s": round(time.time() - t0, 1),
+               "skipped": {k: v for k, v in dist.items() if "skipped" in k or "ended_by" in k or "timeout" in k},
+               "compared": {k: v for k, v in dist.items() if k.startswith("compared:")}}
+    if rc != 0:
+        summary["log_tail"] = log[-800:]
+    shutil.rmtree(out, ignore_errors=True)
+    return rc == 0 and not fails, summary, (fails[0] if fails else None)
+
+
+VG_ERR = re.compile(r"uninitialised|Invalid read|Invalid write|Invalid free|Mismatched free")
+
+
+def valgrind_step(seed, tier, only=None):
+    """Both tiers: a few (quick: 40, thorough: 150) small cases of the sanitizer-free harness, one valgrind/memcheck
+    process per case.  A memcheck error whose stack contains a frame of namespace coloquinte is a failure (a use of
+    an uninitialised value makes the result depend on dead memory).  A case the library stops with an assertion
+    is skipped and counted (C07's subject).  Returns (ok, summary, failure or None)."""
+    import shutil
+    from concurrent.futures import ThreadPoolExecutor
+    if not shutil.which("valgrind"):
+        return True, {"valgrind": "not installed: step skipped"}, None
+    try:
+        exe = C.build_harness("h_C08", "fast", extra_flags=HARNESS_FLAGS)
+    except RuntimeError as e:
+        return False, {"valgrind": "build failed", "detail": str(e)[-1500:]}, None
+    out = _scratch("vg")
+    ks = [only] if only is not None else list(range(150 if tier == "thorough" else 40))
+    t0 = time.time()
+
+    def one(k):
+        d = os.path.join(out, str(k))
+        os.makedirs(d)
+        rc, log = C.sh(["valgrind", "-q", "--error-exitcode=9", "--num-callers=24", exe, "--seed", str(seed), "--tier", "vg",
+                        "--only", str(k), "--out", d], timeout=1800)
+        cid, inp = "v%d_%d" % (seed, k), ""
+        p = os.path.join(d, "vg-cases.txt")
+        if os.path.exists(p):
+            cid, _, inp = open(p, errors="replace").read().strip().partition("\t")
+        # an error block runs from a `==pid== <Title>` line to the next empty `==pid==` line
+        blocks, block = [], []
+        for ln in log.splitlines():
+            if re.match(r"^==\d+==\s*$", ln):
+                if block:
+                    blocks.append(block)
+                block = []
+            elif re.match(r"^==\d+== ", ln):
+                block.append(ln)
+        if block:
+            blocks.append(block)
+        errs = [b for b in blocks if VG_ERR.search(b[0])]
+        lib = [b for b in errs if any("coloquinte::" in x for x in b)]
+        res = {"case": cid, "rc": rc, "finished": "C08-VG-END" in log, "lib_errors": len(lib), "other_errors": len(errs) - len(lib),
+               "oracle": _read_oracle(d), "failure": None, "log_tail": log[-600:]}
+        if lib:
+            res["failure"] = {"case": cid, "input": inp,
+                              "what": "valgrind: " + " | ".join(re.sub(r"^==\d+==\s*", "", x).split(" (in /")[0] for x in lib[0][:8])[:1800]}
+        elif errs:
+            # the undefined value reached the harness (e.g. the exported coordinates): still this case's failure
+            res["failure"] = {"case": cid, "input": inp, "what": "valgrind (no library frame in the reported stack): " +
+                              " | ".join(re.sub(r"^==\d+==\s*", "", x).split(" (in /")[0] for x in errs[0][:8])[:1800]}
+        elif res["oracle"]:
+            res["failure"] = res["oracle"][0]
+        return res
+    with ThreadPoolExecutor(min(C.NCPU, 16)) as ex:
+        results = list(ex.map(one, ks))
+    aborted = [r["case"] for r in results if not r["finished"] and r["rc"] in (-6, 134)]
+    broken = [r for r in results if not r["finished"] and r["rc"] not in (-6, 134)]
+    failure = next((r["failure"] for r in results if r["failure"] and r["lib_errors"]), None) or \
+        next((r["failure"] for r in results if r["failure"]), None)
+    other = sum(r["other_errors"] for r in results)
+    summary = {"cases": len(results), "clean": sum(1 for r in results if r["finished"] and r["rc"] == 0),
+               "skipped_library_assertion": len(aborted), "errors_in_library_frames": sum(r["lib_errors"] for r in results),
+               "errors_elsewhere": other, "wall_s": round(time.time() - t0, 1),
+               "cmd": "valgrind -q --error-exitcode=9 h_C08(fast build) --tier vg --only <k>"}
+    ok = failure is None and not broken and other == 0
+    if not ok and failure is None:
+        summary["log_tail"] = (broken or [r for r in results if r["other_errors"]])[0]["log_tail"]
+    shutil.rmtree(out, ignore_errors=True)
+    return ok, summary, failure
+
+
+class _Tee:
+    def __init__(self, real):
+        self.real, self.text = real, []
+
+    def write(self, s):
+        self.text.append(s)
+        return self.real.write(s)
+
+    def flush(self):
+        self.real.flush()
+
+
+def _update_evidence(fn):
     p = os.path.join(C.EVID, "C08.json")
     try:
         ev = json.load(open(p))
-        ev["coverage"]["tsan"] = summary
-        if not ok:
-            ev["violations"] = max(1, ev.get("violations", 0))
+        fn(ev)
         with open(p + ".tmp", "w") as f:
             json.dump(ev, f, indent=1, sort_keys=True)
         os.rename(p + ".tmp", p)
+        return ev
     except Exception as e:
         print("cannot update evidence: %s" % e)
+        return None
+
+
+def custom_main(a, seed):
+    """Standard check; then (both tiers) the sanitizer-free build with heap perturbation and a few cases under
+    valgrind; then (thorough tier) the ThreadSanitizer run."""
+    import importlib
+    me = sys.modules[__name__]
+    fn = me.__dict__.pop("custom_main")        # let check.main run the standard pipeline
+    tee = _Tee(sys.stdout)
+    try:
+        check = importlib.import_module("check")
+        sys.stdout = tee
+        rc = check.main()
+    finally:
+        sys.stdout = tee.real
+        me.custom_main = fn
+    printed = "".join(tee.text)
+    if rc != 0:
+        # name the static-storage objects / mutable members the translator found (file: function()::name)
+        try:
+            ev = json.load(open(os.path.join(C.EVID, "C08.json"))) if not a.replay else {}
+            info = ev.get("coverage", {}).get("generated", {}).get("Async", {})
+            found = list(info.get("mutable_statics", [])) + [h for h in info.get("mutable_keyword_hits", []) if " member: " in h]
+            if found:
+                print("  problem[static-storage]: mutable static-storage objects / mutable members in the library: " + "; ".join(found)[:1500])
+                m = re.search(r"^VIOLATION .*replay=(\S+)", printed, re.M)
+                if m and os.path.exists(m.group(1)):
+                    rp = json.load(open(m.group(1)))
+                    rp["mutable_static_storage"] = found
+                    with open(m.group(1), "w") as f:
+                        json.dump(rp, f, indent=1)
+        except Exception as e:
+            print("  (cannot list the static-storage objects: %s)" % e)
+        return rc
+    if a.tier not in ("quick", "thorough"):
+        return rc
+    steps = []
+    if a.replay:
+        # a replay found by one of the extra steps names its step
+        try:
+            rp = json.load(open(a.replay))
+        except Exception:
+            rp = {}
+        step = rp.get("step")
+        if step == "perturb":
+            ok, summary, first = perturb_step(seed, a.tier, replay=os.path.abspath(a.replay))
+        elif step == "valgrind":
+            m = re.match(r"v(\d+)_(\d+)$", str(rp.get("case", "")))
+            ok, summary, first = valgrind_step(int(m.group(1)) if m else seed, a.tier, only=int(m.group(2)) if m else 0)
+        else:
+            return rc
+        if not ok:
+            print("VIOLATION property=C08 replay=%s" % a.replay)
+            print("  %s: %s" % (step, json.dumps(first or summary)[:800]))
+            return 1
+        print("OK property=C08 replay step=%s" % step)
+        return rc
+    for name, run in (("perturb", lambda: perturb_step(seed, a.tier)), ("valgrind", lambda: valgrind_step(seed, a.tier))):
+        ok, summary, first = run()
+        steps.append((name, ok, summary, first))
+        _update_evidence(lambda ev: ev["coverage"].__setitem__(name, summary))
+        if ok:
+            print("%s property=C08 ok %s" % (name.upper(), json.dumps({k: v for k, v in summary.items() if k in
+                                                                       ("evaluations", "cases", "wall_s", "errors_in_library_frames")})))
+            continue
+        _update_evidence(lambda ev: ev.__setitem__("violations", max(1, ev.get("violations", 0))))
+        payload = {"property": "C08", "failed": "oracle" if first else name, "on": "implementation", "step": name, "tier": a.tier, "seed": seed,
+                   "summary": summary, "replay_cmd": "python3 tools/check.py C08 --tier %s --replay <this file>" % a.tier}
+        if first:
+            payload.update({"case": first.get("case"), "what": first.get("what"), "input": first.get("input")})
+        rp = C.write_replay("C08", seed, (first or {}).get("case", name), payload)
+        print("VIOLATION property=C08 replay=%s%s" % (rp, "" if first else " no-failing-input-found"))
+        print("  %s: %s" % (name, json.dumps(first or summary)[:800]))
+        return 1
+    if a.tier != "thorough":
+        return rc
+    ok, summary = tsan_step(seed)
+    _update_evidence(lambda ev: ev["coverage"].__setitem__("tsan", summary))
     if not ok:
-        rp = C.write_replay("C08", seed, "tsan", {"property": "C08", "failed": "tsan", "tier": "thorough", "seed": seed,
+        _update_evidence(lambda ev: ev.__setitem__("violations", max(1, ev.get("violations", 0))))
+        rp = C.write_replay("C08", seed, "tsan", {"property": "C08", "failed": "tsan", "step": "tsan", "tier": "thorough", "seed": seed,
                                                   "summary": summary,
                                                   "replay_cmd": "python3 tools/check.py C08 --tier thorough"})
         print("VIOLATION property=C08 replay=%s%s" % (rp, "" if summary.get("tsan_reports") else " no-failing-input-found"))
